@@ -104,11 +104,20 @@ func checkFilterFacts(c FilterCase) (*Violation, filterFacts) {
 		f.skipped = "member_order_open"
 		return nil, f
 	}
-	if c.Strict && c.Prefix.Has(func(n *Node) bool { return n.K == KAny }) {
-		// below .** structural errors are skipped also inside the condition
-		// (documented .** behaviour), so the stand-alone check differs there
-		f.skipped = "strict_prefix_with_recursive_descent"
-		return nil, f
+	// below .** structural errors are skipped also inside the condition (documented .** behaviour), so the
+	// stand-alone predicate check differs there: the per-item question is put to the reference model as
+	// "strict $.**{0} ? (C)" over the item (depth 0 is the item itself, with the same skipping switched on)
+	belowAny := false
+	if c.Strict {
+		for n := c.Prefix; n != nil; n = n.Next {
+			if n.K == KAny {
+				belowAny = true
+			}
+		}
+		if !belowAny && c.Prefix.Has(func(n *Node) bool { return n.K == KAny }) {
+			f.skipped = "strict_prefix_with_nested_recursive_descent"
+			return nil, f
+		}
 	}
 	base := RunQuery(prP.ctx, prP.p, prP.doc, prP.opts(false)...)
 	if base.Panic != "" || isD9(base.Err) {
@@ -163,6 +172,21 @@ func checkFilterFacts(c FilterCase) (*Violation, filterFacts) {
 			quirks = append(quirks, "D17b")
 		}
 		d19 := qev.quirk("subscript_drops_null")
+		if belowAny {
+			ap := &Path{Strict: true, Root: &Node{K: KRoot, Next: &Node{K: KAny, First: 0, Last: 0, Next: &Node{K: KFilter, A: condStandalone(cond, 1)}}}}
+			mr := RunModel(ap, x, o, map[string]any(vars), d19, quirks...)
+			switch {
+			case (mr.Err != nil && mr.Err.dontCare) || mr.SawD9 || mr.OrderOpen:
+				return "?", nil
+			case mr.Err != nil && mr.Err.hard:
+				return "H", fmt.Errorf("%s", mr.Err.msg)
+			case mr.Err != nil:
+				return "?", nil
+			case len(mr.Items) == 1:
+				return "T", nil
+			}
+			return "F", nil // false or unknown: dropped either way
+		}
 		if mr := RunModel(sp, x, o, map[string]any(vars), d19, quirks...); (mr.Err == nil || !mr.Err.dontCare) && !mr.SawD9 && !mr.OrderOpen {
 			switch {
 			case mr.Err != nil && mr.Err.hard:
@@ -260,6 +284,8 @@ func filterTableCases() []FilterCase {
 		// a right operand rooted at $ that depends on the item through a subscript
 		`@[0] == $[1][@[1]]`, `@[0] < $[0][@[1]]`, `@[1] >= $[2][@[0]]`, `@.a == $[1].a[@.b]`, `exists($[0][@[0]])`, `@[0] == $[@[1]][0]`, `$[@[1]][0] == @[0]`,
 		// the right operand of starts with is never unwrapped: $p is an array, $q a string
+		// an operand that yields an item before it fails (strict exists() looks at everything)
+		`exists(@[*].double())`, `!exists(@[*].double())`, `(exists(@[*].integer())) is unknown`, `exists(@[*].abs())`, `exists(@[0 to last].a.double())`, `exists(@[*].double()) || @[0] == 1`, `exists(@.a[*].abs())`, `exists(@[*] ? (@.double() > 0))`,
 		`@[*] starts with $p`, `@[0] starts with $p`, `@[*] starts with $q`, `(@[*] starts with $p) is unknown`, `exists(@[*] ? (@ starts with $p))`, `@[*] starts with $p || @[*] starts with $q`, `@[1] starts with $q`,
 	}
 	docs := []string{
@@ -281,7 +307,8 @@ func filterTableCases() []FilterCase {
 		cond := tree.Root.Next.Next.A
 		for _, d := range docs {
 			for _, strict := range []bool{false, true} {
-				for _, pfx := range []*Node{{K: KAnyArr}, {K: KIdx, Subs: []Sub{{From: &Node{K: KInt, I: 0}, To: &Node{K: KLast}}}}} {
+				// (below .** the structural errors of the condition are skipped as well: the oracle asks the model)
+				for _, pfx := range []*Node{{K: KAnyArr}, {K: KIdx, Subs: []Sub{{From: &Node{K: KInt, I: 0}, To: &Node{K: KLast}}}}, {K: KAny, First: 1, Last: 1}, {K: KAny, First: 0, Last: 2}} {
 					out = append(out, FilterCase{Strict: strict, Prefix: pfx, Cond: cond, Doc: d, Opts: Opts{HasVars: true, Vars: map[string]string{"p": `["a"]`, "q": `"a"`}}})
 				}
 			}
